@@ -21,6 +21,8 @@ var rpMediaPool = []rpMedia{
 	{"application/json", "json"}, {"application/vnd.api+json", "json"}, {"application/problem+json", "json"}, {"text/x-json", "json"},
 	{"application/hal+json", "json"}, {"application/yaml", "yaml"}, {"text/yaml", "yaml"}, {"application/xml", "xml"}, {"text/xml", "xml"},
 	{"text/plain", "other"}, {"application/octet-stream", "other"},
+	// structured-syntax XML types are outside the generator's fixed XML list: no typed field, no parse clause
+	{"application/problem+xml", "other"}, {"application/atom+xml", "other"},
 }
 
 var rpNames = []string{"200", "201", "404", "500", "2XX", "4XX", "5XX", "default"}
@@ -230,8 +232,32 @@ func runC13(r *Report, rng *rand.Rand, thorough bool) {
 				}
 				id := fmt.Sprintf("%s/%d/%s", o.id, s, ct)
 				scenarios = append(scenarios, map[string]any{"id": id, "pkg": pkg, "opts": map[string]any{"short_circuit": -1, "strict_short_circuit": -1},
-					"parse": map[string]any{"fn": "Parse" + opName(o.id) + "Response", "status": s, "content_type": ct, "body": rpBody(cts[ct])}})
+					"parse": map[string]any{"fn": "Parse" + opName(o.id) + "Response", "status": s, "content_type": ct, "body": rpBody(classOf(ct))}})
 				metas[id] = meta{o, s, ct}
+			}
+		}
+	}
+	// every declared pair (parsable or not) is answered once, unsampled, with a status that response matches
+	declaredReplies := map[string][]string{} // op id -> scenario ids
+	for i, o := range ops {
+		pkg := fmt.Sprintf("c13_p%d", i/per)
+		if !lab.Status[pkg].OK {
+			continue
+		}
+		for _, rr := range o.resps {
+			st := rpRepresentative(o, rr.name)
+			if st == 0 {
+				continue
+			}
+			for _, md := range rr.media {
+				id := fmt.Sprintf("%s/%d/%s", o.id, st, md.ct)
+				declaredReplies[o.id] = append(declaredReplies[o.id], id)
+				if _, dup := metas[id]; dup {
+					continue
+				}
+				scenarios = append(scenarios, map[string]any{"id": id, "pkg": pkg, "opts": map[string]any{"short_circuit": -1, "strict_short_circuit": -1},
+					"parse": map[string]any{"fn": "Parse" + opName(o.id) + "Response", "status": st, "content_type": md.ct, "body": rpBody(classOf(md.ct))}})
+				metas[id] = meta{o, st, md.ct}
 			}
 		}
 	}
@@ -355,8 +381,77 @@ func runC13(r *Report, rng *rand.Rand, thorough bool) {
 			r.Violate(sig, fmt.Sprintf("responses %v, reply %d %q: filled [%s], statement expects [%s]", m.op.resps, m.status, m.ct, got, wantField), replay)
 		}
 	}
+	// a typed field that belongs to no declared parsable pair of the statement's table must still be "the field generated
+	// for a pair": some declared reply has to fill it (a field no valid answer ever fills has no parse clause)
+	for i, o := range ops {
+		pkg := fmt.Sprintf("c13_p%d", i/per)
+		if !lab.Status[pkg].OK {
+			continue
+		}
+		p, err := parseGo(lab.Status[pkg].Code)
+		if err != nil {
+			continue
+		}
+		fields, ok := structFields(p, opName(o.id)+"Response")
+		if !ok {
+			continue
+		}
+		predicted := map[string]bool{"Body": true, "HTTPResponse": true}
+		for _, rr := range o.resps {
+			for _, md := range rr.media {
+				if f := rpFieldName(rr.name, md); f != "" {
+					predicted[f] = true
+				}
+			}
+		}
+		for _, f := range fields {
+			if predicted[f.GoName] || f.GoName == "" {
+				continue
+			}
+			filledOnce := false
+			for _, id := range declaredReplies[o.id] {
+				if res := results[id]; res != nil {
+					if _, ok := res.Parsed[f.GoName]; ok {
+						filledOnce = true
+					}
+				}
+			}
+			r.Count("extra-field/"+o.id+"/"+f.GoName, true)
+			if !filledOnce {
+				r.Violate("typed_field_without_parse_clause", fmt.Sprintf("responses %v: the response type has the typed field %s, and no valid answer to any declared (status, media type) pair fills it", o.resps, f.GoName), map[string]any{"responses": o.resps, "field": f.GoName})
+			}
+		}
+	}
 	pcases.WriteTo(r)
-	r.Rule = "operations with 1-4 declared responses over {200, 201, 404, 500, 2XX, 4XX, 5XX, default} x 0-3 media types each from {application/json, vendor +json (3), hal+json, yaml (2), xml (2), unparsable (2)} (two fixed witnesses and common shapes first), generated client compiled; Parse<Op>Response called on synthesized replies: statuses {200,201,204,299,404,418,500,503} x every declared media type + application/json (+charset) + text/html; observed = which typed fields are non-nil, raw body and status; typed request builders (JSON, vendor JSON, form, text) checked for Content-Type and encoding; non-trivial = a declared pair is expected with several responses declared"
+	r.Rule = "operations with 1-4 declared responses over {200, 201, 404, 500, 2XX, 4XX, 5XX, default} x 0-3 media types each from {application/json, vendor +json (3), hal+json, yaml (2), xml (2), unparsable (2), structured-syntax +xml (2)} (two fixed witnesses and common shapes first), generated client compiled; Parse<Op>Response called on synthesized replies: statuses {200,201,204,299,404,418,500,503} x every declared media type + application/json (+charset) + text/html, and every declared pair answered once with a status only that response matches best (every typed field of the response type must be filled by some declared reply); observed = which typed fields are non-nil, raw body and status; typed request builders (JSON, vendor JSON, form, text) checked for Content-Type and encoding; non-trivial = a declared pair is expected with several responses declared"
+}
+
+// rpRepresentative: a status that the named response matches and no more specific declared response does (0 if none).
+func rpRepresentative(o rpOp, name string) int {
+	var cands []int
+	switch {
+	case name == "default":
+		cands = []int{302, 418, 100, 503, 200, 404}
+	case strings.HasSuffix(name, "XX"):
+		b := int(name[0]-'0') * 100
+		cands = []int{b + 99, b + 18, b + 3, b}
+	default:
+		n := 0
+		fmt.Sscan(name, &n)
+		cands = []int{n}
+	}
+	for _, st := range cands {
+		ok := true
+		for _, rr := range o.resps {
+			if rr.name != name && rpStatusMatches(rr.name, st) && rpSpecificity(rr.name) < rpSpecificity(name) {
+				ok = false
+			}
+		}
+		if ok {
+			return st
+		}
+	}
+	return 0
 }
 
 func rpJSONCount(r rpResponse) int {
